@@ -266,3 +266,59 @@ fn c03_send_payload() { send_case(false) }
 #[kani::stub(ohkami::util::unix_timestamp, stubs::unix_timestamp_zero)]
 #[kani::unwind(12)]
 fn c03_send_head() { send_case(true) }
+
+// ---- Router::handle: method dispatch, HEAD rule and `complete()` ------------------------------------
+// The real `Router::handle` on a hook-built router whose GET root carries a proc that answers with a prepared
+// response (through `std::future::Ready`, boxed: not a coroutine inside `handle`'s coroutine).
+fn misused_no_content() -> Response {
+    // a handler that (wrongly) attaches a payload to 204
+    Response::new(Status::NoContent).with_text("x")
+}
+fn ok_with_text() -> Response { Response::new(Status::OK).with_text("hey") }
+
+fn handle_case(make: fn() -> Response, method: ohkami::Method) -> Response {
+    let root = v::tree::node_with_proc(Some(b""), &[], make);
+    let router: &'static v::tree::VRouter = Box::leak(Box::new(v::tree::router(root)));
+    let req: &'static mut ohkami::Request = Box::leak(Box::new(v::request_init()));
+    v::request_set_method(req, method);
+    let _ = v::request_set_target(req, b"/");
+    let mut fut = v::tree::handle(router, req);
+    let res = crate::support::exec::block_on_in_place(&mut fut, 2).expect("handle completed");
+    std::mem::forget(fut);
+    res
+}
+
+// @verif prop=C03 tier=off mem=12 timeout=900 replay=none bounds="Router::handle for HEAD and GET on a route whose handler answers 204 with a payload: neither body nor Content-Length leaves the router"
+#[kani::proof]
+#[kani::stub(ohkami::util::unix_timestamp, stubs::unix_timestamp_zero)]
+#[kani::stub(core::str::from_utf8, stubs::from_utf8_model)]
+#[kani::unwind(12)]
+fn c03_handle_head_and_get_204() {
+    let res = handle_case(misused_no_content, ohkami::Method::HEAD);
+    assert!(res.status.code() == 204, "C03: status changed");
+    assert!(res.payload().is_none(), "C03: HEAD response carries a body");
+    assert!(res.headers.ContentLength().is_none(), "C03: 204 carries a Content-Length (HEAD)");
+    std::mem::forget(res);
+    let res = handle_case(misused_no_content, ohkami::Method::GET);
+    assert!(res.payload().is_none(), "C03: 204 carries a body");
+    assert!(res.headers.ContentLength().is_none(), "C03: 204 carries a Content-Length");
+    kani::cover!(true, "both methods handled");
+    std::mem::forget(res);
+}
+
+// @verif prop=C03 tier=off mem=12 timeout=900 replay=none bounds="Router::handle: HEAD is answered by the GET handler with the same headers (Content-Length kept) and no body; another method's empty tree answers 404"
+#[kani::proof]
+#[kani::stub(ohkami::util::unix_timestamp, stubs::unix_timestamp_zero)]
+#[kani::stub(core::str::from_utf8, stubs::from_utf8_model)]
+#[kani::unwind(12)]
+fn c03_handle_head_of_get_and_other_method() {
+    let res = handle_case(ok_with_text, ohkami::Method::HEAD);
+    assert!(res.status.code() == 200, "C01/C03: HEAD is not answered by the GET handler");
+    assert!(res.payload().is_none(), "C03: HEAD response carries a body");
+    assert!(res.headers.ContentLength() == Some("3"), "C03: HEAD response lost the Content-Length of the GET response");
+    std::mem::forget(res);
+    let res = handle_case(ok_with_text, ohkami::Method::POST);
+    assert!(res.status.code() == 404, "C01: a method without a registered route did not answer 404");
+    kani::cover!(true, "both methods handled");
+    std::mem::forget(res);
+}
